@@ -133,6 +133,34 @@ def run(res, proof):
         ops.append(('rotpt', s))
         if len(s) <= 60:
             oracle(res, cux, ComplexS, s, rng)
+    # rotationally symmetric / periodic complexes with their own (repeated) labels: the object generators must still
+    # enumerate exactly n rotations and agree with the utility generators
+    from dsdobjects import clear_singletons
+    from dsdobjects.base_classes import DomainS
+    clear_singletons(DomainS)
+    dd = {}
+    for names, s in gen.symmetric_complexes():
+        res.evaluations += 1
+        res.nontriv(('symmetric', tuple(names), s))
+        for n_ in names:
+            if n_ != '+' and n_ not in dd:
+                b_ = n_[:-1] if n_.endswith('*') else n_
+                dd[b_] = dd.get(b_) or DomainS(b_, 5)
+                dd[b_ + '*'] = ~dd[b_]
+        want = [(list(a), list(b)) for a, b in ref.rotations(names, s)]
+        clear_singletons(ComplexS)
+        c = ComplexS([dd[x] if x != '+' else '+' for x in names], list(s), name='SYM')
+        r1 = [([str(x) for x in a], list(b)) for a, b in c.rotate()]
+        r2 = [([str(x) for x in cux.strand_table_to_sequence(a)], cux.pair_table_to_dot_bracket(b)) for a, b in c.rotate_pt()]
+        dbr = [([str(x) for x in a], list(b)) for a, b in cux.rotate_complex_db(list(names), list(s))]
+        nn = len(want)
+        if r1 != want or r2 != want or len(dbr) != nn or any(dbr[k] != want[(nn - k) % nn] for k in range(nn)):
+            res.violation('rotation-enumeration:symmetric-complex', {'op': ['ComplexS.rotate', ' '.join(names), s]},
+                          'rotate(): %d entries, rotate_pt(): %d, rotate_complex_db: %d' % (len(r1), len(r2), len(dbr)),
+                          'exactly the %d rotations starting with the current one, in both families' % nn)
+        ops.append(('rot1', ' '.join(names), s)); ops.append(('rotpt', s))
+        del c
+    clear_singletons(ComplexS)
     impl = [cu.impl_op(cux, op) for op in ops]
     lines = ['\t'.join(op) for op in ops]
     try:
